@@ -216,9 +216,9 @@ class _Printer:
         if k == 'exit':
             return 'EXIT ' + s[1].upper()
         if k == 'goto':
-            return 'GOTO ' + s[1]
+            return 'GOTO %s' % (s[1],)
         if k == 'gosub':
-            return 'GOSUB ' + s[1]
+            return 'GOSUB %s' % (s[1],)
         if k == 'return':
             return 'RETURN'
         if k == 'callsub':
@@ -267,6 +267,13 @@ class _Printer:
         k = s[0]
         if k == 'label':
             self.emit(s[1] + ':', s, 0)
+        elif k == 'lineno':
+            self.emit('%d' % s[1], s, 0)
+        elif k == 'line':
+            # several simple statements on one line
+            self.emit(': '.join(self.simple(x) for x in s[1]), s, depth)
+            for x in s[1]:
+                self.lines.append((len(self.out), x))
         elif k == 'if':
             first = True
             for cond, body in s[1]:
